@@ -149,6 +149,7 @@ def run_order(shard, tier, seed):
     # (2) attribute declared-ness: every class x every attribute name of the schema
     names = all_attr_names()
     attrs = {}
+    numvals = {}
     for cn in arrange(list(lib.CLASSES)):
         cls = lib.CLASSES[cn]
         if lib.xsd_type_name(cls) not in ref.ALL:
@@ -169,6 +170,23 @@ def run_order(shard, tier, seed):
             else:
                 bits.append('1')          # declared, value refused
         attrs[cn] = ''.join(bits)
+        # numeric attribute values offered in an order that depends on the shard: acceptance of a value must not depend on
+        # which other values this (or any other) element was given before
+        t = lib.xsd_type_name(cls)
+        for an, at, req in ref.attr_table(t):
+            if at is None or not ref.numeric_kinds(at):
+                continue
+            probes = [1, 1.0, 0, 0.0, 2, 2.5, -1, -1.0]
+            if order == 'reversed':
+                probes = probes[::-1]
+            elif order.startswith('shuffle'):
+                rnd.shuffle(probes)
+            got = {}
+            for pv in probes:
+                e2 = lib.make(cls)
+                got[repr(pv)] = '1' if lib.call(setattr, e2, an.replace('-', '_'), pv)[0] == 'ok' else '0'
+                evals += 1
+            numvals['%s/@%s' % (cn, an)] = ''.join(got[repr(pv)] for pv in [1, 1.0, 0, 0.0, 2, 2.5, -1, -1.0])
     # (3) child acceptance of every container class: each symbol of the alphabet offered to a fresh element
     kids = {}
     for cn in arrange(list(lib.CONTAINER_CLASSES)):
@@ -183,7 +201,7 @@ def run_order(shard, tier, seed):
     return {'evaluations': evals, 'distinct_nontrivial': evals, 'violations': [],
             'samples': [{'order': order, 'first_types': tnames[:4]}],
             'counters': {'order_cells': evals}, 'matrix': {'order': order, 'literals': literals, 'names': names,
-                                                           'values': values, 'attrs': attrs, 'kids': kids}}
+                                                           'values': values, 'attrs': attrs, 'kids': kids, 'numvals': numvals}}
 
 
 def aggregate(results, tier, seed):
@@ -194,13 +212,14 @@ def aggregate(results, tier, seed):
     if len(mats) >= 2:
         base = mats[0]
         for m in mats[1:]:
-            for part, cols in (('values', 'literals'), ('attrs', 'names'), ('kids', None)):
+            for part, cols in (('values', 'literals'), ('attrs', 'names'), ('kids', None), ('numvals', None)):
                 for key, bits in base[part].items():
                     other = m[part].get(key)
                     if other is None or other == bits:
                         continue
                     idx = next(i for i, (a, b) in enumerate(zip(bits, other)) if a != b)
-                    what = {'values': 'value-acceptance', 'attrs': 'attribute-declaredness', 'kids': 'child-acceptance'}[part]
+                    what = {'values': 'value-acceptance', 'attrs': 'attribute-declaredness', 'kids': 'child-acceptance',
+                            'numvals': 'numeric-attribute-value-acceptance'}[part]
                     col = base[cols][idx] if cols else idx
                     agg['violations'].append({
                         'sig': {'kind': 'behaviour-depends-on-order-of-first-use', 'what': what, 'subject': key},
